@@ -39,6 +39,8 @@ def C01(tier):
     jobs += [hq("default", 5 * m, first=900, flavor="asan", scale=30, timeout=600),
              hq("wl", 6 * m, first=920, flavor="asan", scale=50, timeout=600), hq("hier", 5 * m, first=940, flavor="asan", scale=40, timeout=600)]
     jobs += [hw(32 * m), hw(32 * m, flavor="asan")]
+    # legacy queues whose target queue is changed (dispatch_set_target_queue) while they are in use
+    jobs += spread(hq, "retarget", 16 * m, 2) + [hq("retarget", 6 * m, first=100, ncpu=4), hq("retarget", 5 * m, first=200, flavor="asan", scale=40, timeout=600)]
     if tier == "thorough":
         jobs += [hq("default", 10 * m, first=2000, flavor="dbg", scale=60, timeout=900)]
         for t in jobs:
@@ -53,6 +55,7 @@ def C01(tier):
         "gate_trials": 20,
         "starve_trials": 4,
         "waiter_schedule_reached": 48,
+        "retargets_while_in_use": 20000,
     }
     rule = ("one case = one trial: a drawn queue graph (serial/concurrent/global/workloop queues, target chains to depth 4), "
             "workload shape (pingpong/flood/mixed/chain/gate/starve), 2-12 foreign client threads, a perturbation profile at the "
@@ -79,6 +82,7 @@ def C02(tier):
     # ASan with stack-use-after-return detection: sync contexts live on the waiters' stacks
     jobs += [hq("serial", 6 * m, first=1000, flavor="asan", scale=40, timeout=600), hq("pingpong", 5 * m, first=1020, flavor="asan", scale=40, timeout=600),
              hq("hier", 5 * m, first=1040, flavor="asan", scale=40, timeout=600)]
+    jobs += [hq("retarget", 8 * m, first=300), hq("retarget", 4 * m, first=350, flavor="tsan", scale=25, timeout=900, perturb="uniform")]
     if tier == "thorough":
         for t in jobs:
             t.timeout = 1800
@@ -143,6 +147,7 @@ def C04(tier):
     jobs += [hq("gate", 30 * m, first=0, extra=["--gate-conc=1"]), hq("window", 16 * m, first=0), hq("window3", 16 * m, first=0)]
     jobs += [hq("barrier", 6 * m, first=900, flavor="tsan", scale=25, timeout=900, perturb="uniform")]
     jobs += [hq("barrier", 6 * m, first=1000, flavor="asan", scale=40, timeout=600), hq("mixed", 5 * m, first=1020, flavor="asan", scale=40, timeout=600)]
+    jobs += [hq("retarget", 8 * m, first=400)]
     if tier == "thorough":
         for t in jobs:
             t.timeout = 1800
@@ -177,6 +182,7 @@ def C05(tier):
     jobs += [Job("asan", "h_handoff", ["--trials=%d" % (8 * m), "--first=300", "--scale=40"], timeout=600, tag="h_handoff:asan"),
              hq("pingpong", 5 * m, first=1000, flavor="asan", scale=40, timeout=600), hq("wl", 5 * m, first=1020, flavor="asan", scale=50, timeout=600)]
     jobs += [hw(32 * m), hw(32 * m, flavor="asan")]
+    jobs += [hq("retarget", 8 * m, first=500), hq("retarget", 4 * m, first=550, flavor="tsan", scale=25, timeout=900, perturb="uniform")]
     if tier == "thorough":
         for t in jobs:
             t.timeout = 1800
@@ -493,6 +499,7 @@ def C17(tier):
              Job("asan", "h_data", ["--trials=%d" % (20 * m), "--first=5500"], timeout=600, tag="h_data:asan:c17"),
              hj("h_timer", 2 * m, first=5600, flavor="asan", scale=50, timeout=600)]
     jobs += [hw(32 * m), hw(32 * m, flavor="asan")]
+    jobs += [hq("retarget", 5 * m, first=600, flavor="asan", scale=40, timeout=600)]
     for j in jobs:
         if j.flavor == "asan" and j.harness in ("h_life", "h_data", "h_queue"):   # the other harnesses keep per-case records alive on purpose
             j.env.update({"ASAN_OPTIONS": "abort_on_error=1:detect_leaks=1:halt_on_error=1:allocator_may_return_null=1:detect_stack_use_after_return=1", "LSAN_OPTIONS": "exitcode=23:report_objects=0"})
